@@ -9,45 +9,62 @@ Only property theorems + non-vacuity examples; proofs in `Lemmas/C02.lean`.
 namespace PhyVerif.C02
 open PhyVerif PhyVerif.C01
 
+/-! Reachability. A reader of the real code always HAS an `_ops` list (`__init__`, traces.py:187-188; `_append_op`
+gives every clone its own, traces.py:240-245): it is an address `r < h.length` of the heap it was derived in. Every
+theorem below whose conclusion speaks of the operations of a reader is stated for such an address and reads them as
+`h[r]` — never through `List.getD … []`, whose default would answer a dangling address with "no operations" (an
+object the real code cannot produce). Where the conclusion does not depend on it (the SOURCE of a derivation in
+`derive_preserves_others` / `derivations_preserve`: existing readers are untouched whatever is derived, from
+whatever address) the hypothesis is not stated; the histories of the real code satisfy it anyway. -/
+
 /-- Indexing a reader that carries any list of deferred operations (any element-wise functions,
 any channel selections, in any order) equals applying the same operations to the fully loaded
 concatenated array and then indexing it — for every layout and every in-domain row index.
 Parametric in what each operator computes, hence independent of dtype, promotion and rounding. -/
 theorem eval_eq_eager {β : Type} (h : Heap β) (parts : List (List (List β))) (r : Nat) (it : Item)
-    (hd : InDom parts.flatten.length it) :
-    eval h parts r it = npRows (applyOps (h.getD r []) parts.flatten) it :=
-  Lemmas.eval_eq_eager h parts r it hd
+    (hr : r < h.length) (hd : InDom parts.flatten.length it) :
+    eval h parts r it = npRows (applyOps h[r] parts.flatten) it :=
+  Lemmas.eval_eq_eager_at h parts r it hr hd
 
 /-- same with a trailing channel selector `reader[item, cols]` -/
 theorem evalCols_eq_eager {β : Type} (h : Heap β) (parts : List (List (List β))) (r : Nat)
     (it : Item) (c : ColSel) (hr : r < h.length) (hd : InDom parts.flatten.length it) :
-    evalCols h parts r it c =
-      npRows (applyOps (h.getD r [] ++ [.cols c]) parts.flatten) it :=
-  Lemmas.evalCols_eq_eager h parts r it c hr hd
+    evalCols h parts r it c = npRows (applyOps (h[r] ++ [.cols c]) parts.flatten) it :=
+  Lemmas.evalCols_eq_eager_at h parts r it c hr hd
 
 /-- deferred operations commute with row selection (the core algebraic fact) -/
 theorem applyOps_commutes_rows {β : Type} (ops : List (Op β)) (A : List (List β)) (it : Item) :
     (npRows A it).map (applyOps ops) = npRows (applyOps ops A) it :=
   Lemmas.applyOps_commutes_rows ops A it
 
-/-- Deriving is closed and gives the clone exactly the parent's operations plus the new one … -/
+/-- Deriving is closed — the clone's address is a live address of the new heap — and gives the clone exactly the
+parent's operations plus the new one … -/
 theorem derive_ops {β : Type} (h : Heap β) (r : Nat) (op : Op β) (hr : r < h.length) :
-    (derive h r op).1.getD (derive h r op).2 [] = h.getD r [] ++ [op] :=
-  Lemmas.derive_ops h r op hr
+    (derive h r op).1[(derive h r op).2]? = some (h[r] ++ [op]) :=
+  Lemmas.derive_ops_at h r op hr
 
 /-- … and never changes the operations (hence the value of any evaluation) of the reader it was
 derived from or of any other existing reader. -/
 theorem derive_preserves_others {β : Type} (h : Heap β) (r : Nat) (op : Op β) (r' : Nat)
     (hr' : r' < h.length) :
-    (derive h r op).1.getD r' [] = h.getD r' [] :=
-  Lemmas.derive_preserves_others h r op r' hr'
+    (derive h r op).1[r']? = some h[r'] :=
+  Lemmas.derive_preserves_others_at h r op r' hr'
 
 /-- Any derivation history (parents, children, siblings, grandchildren, in any order) leaves
-every previously existing reader untouched. -/
+every previously existing reader untouched … -/
 theorem derivations_preserve {β : Type} (h : Heap β) (ds : List (Nat × Op β)) (r' : Nat)
     (hr' : r' < h.length) :
-    (runDerivations h ds).getD r' [] = h.getD r' [] :=
-  Lemmas.derivations_preserve h ds r' hr'
+    (runDerivations h ds)[r']? = some h[r'] :=
+  Lemmas.derivations_preserve_at h ds r' hr'
+
+/-- … so what it RETURNS is the same before and after, for every index expression (with or without a channel
+selector; in or out of the domain of `eval_eq_eager`). -/
+theorem derivations_preserve_returns {β : Type} (h : Heap β) (ds : List (Nat × Op β))
+    (parts : List (List (List β))) (r' : Nat) (hr' : r' < h.length) (it : Item) :
+    eval (runDerivations h ds) parts r' it = eval h parts r' it ∧
+    ∀ c, evalCols (runDerivations h ds) parts r' it c = evalCols h parts r' it c :=
+  ⟨Lemmas.derivations_preserve_eval h ds parts r' hr' it,
+   fun c => Lemmas.derivations_preserve_evalCols h ds parts r' hr' it c⟩
 
 /-! ### `_append_op` statement by statement, with Python's object semantics (Model/C02b)
 
@@ -91,6 +108,22 @@ example :
     eval d3.1 parts d2.2 (.slice (some 1) none) = some [[(3, [7]), (2, [7])], [(5, [7]), (4, [7])]] ∧
     eval d3.1 parts 0 (.int 0) = some [[(0, []), (1, [])]] ∧
     eval d3.1 parts d3.2 (.int (-1)) = some [[(4, [9]), (5, [9])]] := by decide
+
+/-- every address used above is live (the reachability hypothesis) and the clone of a derivation is the next address;
+the parent answers the same after the three derivations, with a channel selector too -/
+example :
+    let parts : List (List (List (Nat × List Nat))) := [[[(0, []), (1, [])]], [[(2, []), (3, [])], [(4, []), (5, [])]]]
+    let tag (t : Nat) : Op (Nat × List Nat) := .elem fun c => (c.1, c.2 ++ [t])
+    let h0 : Heap (Nat × List Nat) := [[]]
+    let ds := [(0, tag 7), (1, .cols (.idx [1, 0])), (0, tag 9)]
+    let h3 := runDerivations h0 ds
+    h3 = (derive (derive (derive h0 0 (tag 7)).1 1 (.cols (.idx [1, 0]))).1 0 (tag 9)).1 ∧
+    h3.length = 4 ∧ (derive h0 0 (tag 7)).2 = 1 ∧ (h3.map List.length) = [0, 1, 2, 1] ∧
+    eval h3 parts 0 (.list [0, 2]) = eval h0 parts 0 (.list [0, 2]) ∧
+    eval h3 parts 0 (.list [0, 2]) = some [[(0, []), (1, [])], [(4, []), (5, [])]] ∧
+    evalCols h3 parts 0 (.int 1) (.idx [1]) = some [[(3, [])]] ∧
+    evalCols h3 parts 2 (.int 1) (.idx [1]) = some [[(2, [7])]] := by
+  refine ⟨rfl, by decide, by decide, by decide, by decide, by decide, by decide, by decide⟩
 
 /-- a store with one reader (no operations) meets the hypotheses; after two derivations from the same parent the
 three readers carry [], [cols [1,0]], [cols [0]] -/
